@@ -10,11 +10,18 @@ import re
 from .. import core, sqlgen, stmt
 
 PROP = "C10"
-SEPS = [";", " ; ", ";\n", " ;\n\n", "; -- c ; c\n", ";/* ; */", "\n;\t", " ;  "]
+SEPS = [";", " ; ", ";\n", " ;\n\n", "; -- c ; c\n", ";/* ; */", "\n;\t", " ;  ", "; /** doc ; **/ ", ";/***/", " /* x **/;\n", ";# c;\n", "/**/;/* a */ /* ; b */"]
 FINALS = ["", ";", " ; \n", ";\n-- end;\n", "\n"]
 QUOTED = ["SELECT ';' FROM t", "SELECT `a;b` FROM t", "SELECT a /* ; */ FROM t", "SELECT a -- ;\n FROM t", "SELECT f(';', 1) FROM t # ;\n",
           "SELECT (';') , \";\" FROM `t;1`", "INSERT INTO t VALUES (';', ';;')", "UPDATE t SET a = ';' WHERE b = \"x;y\"",
           "DELETE FROM t WHERE a IN (';', ');')", "SET a = ';'", "SELECT 'it''s;' FROM t", "SELECT '\\';' FROM t"]
+
+
+CONTEXT = ["WITH w AS (SELECT a FROM t) SELECT * FROM w", "WITH w1 AS (SELECT 1), w2 AS (SELECT b FROM w1) SELECT * FROM w2 JOIN w1 ON w1.a = w2.b",
+           "WITH w AS (SELECT 1) INSERT INTO t SELECT * FROM w", "WITH w AS (SELECT 1) UPDATE t SET a = 1", "SELECT a FROM (SELECT a FROM t) x /* c */",
+           "SELECT DISTINCT a FROM t LIMIT 5", "INSERT INTO t PARTITION (dt='1') (a, b) VALUES (1, 2)", "SELECT a FROM t WHERE b IN (SELECT c FROM u) ORDER BY a DESC"]
+PLAIN = ["SELECT 2", "SELECT b FROM u", "INSERT INTO t2 SELECT a FROM u", "INSERT INTO t2 VALUES (3)", "UPDATE t2 SET b = 2", "SELECT a FROM t UNION SELECT b FROM u",
+         "DELETE FROM t2", "SHOW TABLES"]
 
 
 def kind_of(dump):
@@ -84,6 +91,14 @@ def build(run):
             b = q[(i + 1) % len(q)]
             for sp in SEPS:
                 scripts.append((d, [a[0], b[0]], [a[1], b[1]], [sp], run.rng.choice(FINALS)))
+    # statements that carry their own context (WITH clause, brackets, comments) followed by statements that must not inherit it
+    for d in dialects:
+        ctx = [(s, dm) for s, dm in zip(CONTEXT, standalone([(d, s) for s in CONTEXT])) if dm is not None]
+        plain = [(s, dm) for s, dm in zip(PLAIN, standalone([(d, s) for s in PLAIN])) if dm is not None]
+        for a in ctx:
+            for b in plain:
+                scripts.append((d, [a[0], b[0]], [a[1], b[1]], [run.rng.choice(SEPS)], run.rng.choice(FINALS)))
+                scripts.append((d, [b[0], a[0], b[0]], [b[1], a[1], b[1]], [run.rng.choice(SEPS), run.rng.choice(SEPS)], run.rng.choice(FINALS)))
     # random scripts of 1..6 statements
     for _ in range(400 if tier_q else 6000):
         d = run.rng.choice(dialects)
